@@ -424,15 +424,92 @@ def stream_large(seed, n):
     for i in range(n):
         e = Est()
         kind = rng.choice(["ring", "ringtail", "hub", "multi", "dense", "clique", "twolevel", "mutualbig", "manyhandles",
-                           "churn", "hubshrink", "hubshrink", "stardie", "stardie"])
+                           "churn", "hubshrink", "hubshrink", "stardie", "stardie", "multibig", "faninbig", "bigsurv",
+                           "weakfields", "nestglue", "nestglue"])
         k = rng.randint(8, 24)
         if kind in ("hubshrink", "stardie"):
             k = rng.randint(10, 32)
+        if kind == "nestglue":
+            k = 0
+        if kind in ("multibig", "weakfields"):
+            k = 2
+        if kind == "faninbig":
+            k = rng.choice([40, 130, 300])
+        if kind == "bigsurv":
+            k = rng.randint(40, 90)
         if kind in ("manyhandles", "churn"):
             k = rng.randint(2, 3)
         for _ in range(k):
             e.new()
-        if kind == "hubshrink":
+        if kind == "nestglue":
+            # a chain of adopted 2-rings, each kept alive only by an UNRECORDED handle stored in a value of the previous
+            # ring: dropping the first ring's last outside handle makes every ring become orphaned inside the teardown
+            # of the previous one (drop glue, no destructor scripts): collections nested d deep
+            d = rng.choice([3, 5, 8, 9, 10, 13, 20])
+            heads = []
+            for g in range(d):
+                e.new(); e.new()
+                a, b = e.nobj - 2, e.nobj - 1
+                e.edge(a, b); e.edge(b, a)
+                heads.append(a)
+                e.drop(e.find_root(b))
+            for g in range(d - 1):
+                e.edge(heads[g], heads[g + 1], recorded=False)
+            for g in range(1, d):
+                e.drop(e.find_root(heads[g]))
+            if rng.random() < 0.5:
+                e.downgrade(e.find_root(heads[0]))
+            e.drop(e.find_root(heads[0]))
+        elif kind == "multibig":
+            # one adoption recorded hundreds of times (counts beyond any 8-bit quantity), inside a 2-ring
+            for _ in range(rng.choice([130, 260, 300, 400])):
+                e.edge(0, 1)
+            e.edge(1, 0)
+            e.raw("counts 1")
+            for _ in range(rng.randint(0, 40)):
+                ih = e.find_root(0)
+                if ih is not None and e.held.get(0):
+                    e.unlink(ih, 0)
+                    e.drop(len(e.roots) - 1)
+        elif kind == "faninbig":
+            # hundreds of owners of one target, the target closing a cycle through one of them
+            for j in range(1, k):
+                e.edge(j, 0)
+            e.edge(0, 1)
+            e.raw("counts 0")
+            order = list(range(1, k))
+            rng.shuffle(order)
+            for j in order:
+                ij = e.find_root(j)
+                if ij is not None:
+                    e.drop(ij)
+        elif kind == "bigsurv":
+            # a big ring one member of which is also adopted by an outside owner the program keeps: dropping the
+            # ring's handles must not collect it; then the owner goes
+            for j in range(1, k):
+                e.edge(j, 1 + (j % (k - 1)))
+            e.edge(0, rng.randrange(1, k))
+            for _ in range(rng.randint(0, 6)):
+                e.edge(rng.randrange(1, k), rng.randrange(1, k))
+            for j in range(1, k):
+                ij = e.find_root(j)
+                if ij is not None:
+                    e.drop(ij)
+            e.raw("counts 0")
+        elif kind == "weakfields":
+            # hundreds of Weak handles stored inside one value, and hundreds held by the program
+            e.edge(0, 1)
+            e.edge(1, 0)
+            n_w = rng.choice([60, 300, 400])
+            for _ in range(n_w):
+                e.downgrade(rng.randrange(2))
+                if rng.random() < 0.6:
+                    e.raw(f"storeWeak {len(e.wroots) - 1} {rng.randrange(max(1, len(e.roots)))}")
+                    if e.wroots:
+                        e.wroots.pop()
+            e.raw("wcounts 0")
+            e.raw("counts 0")
+        elif kind == "hubshrink":
             # a table grows to dozens of entries and shrinks again "by the book" while a parallel adoption inside a
             # ring survives (growth / shrink / compaction policies of the table)
             m = rng.randint(2, 4)
@@ -469,8 +546,8 @@ def stream_large(seed, n):
             # counts far beyond what the small streams reach (narrow integer types, thresholds on strong/weak)
             for j in range(k):
                 e.edge(j, (j + 1) % k)
-            n_s = rng.choice([20, 70, 140, 270])
-            n_w = rng.choice([0, 20, 140, 270])
+            n_s = rng.choice([20, 70, 140, 270, 400])
+            n_w = rng.choice([0, 20, 140, 270, 400])
             for _ in range(n_s):
                 e.clone(0)
             for _ in range(n_w):
@@ -549,6 +626,52 @@ def stream_large(seed, n):
         mix(rng, e, rng.randint(0, 30), CONTRACT_ALPHA + ["unlink"] * 4 + ["makeMut", "tryUnwrap", "makeMutField", "take"])
         drop_all(rng, e, 1.0)
         yield (f"large-{seed}-{i}-{kind}{k}", e.ops)
+
+
+def xl_cases(seed, n):
+    """a handful of much bigger histories (thousands of operations): two big cliques hanging off one root; a ring of
+    hundreds of objects with an outside owner that is absorbed into the group just before the orphaning drop"""
+    rng = random.Random(seed ^ 0x71C)
+    for i in range(n):
+        e = Est()
+        if i % 2 == 0:
+            c = rng.randint(45, 50)
+            for _ in range(1 + 2 * c):
+                e.new()
+            for base in (1, 1 + c):
+                for a in range(base, base + c):
+                    for b in range(base, base + c):
+                        if a != b:
+                            e.edge(a, b)
+            e.edge(0, 1); e.edge(0, 1 + c); e.edge(1, 0); e.edge(1 + c, 0)
+            order = list(range(1, 1 + 2 * c))
+            rng.shuffle(order)
+            for j in order:
+                e.drop(e.find_root(j))
+            e.raw("counts 0")
+            e.drop(e.find_root(0))
+            yield (f"large-{seed}-xl{i}-twocliques{c}", e.ops)
+        else:
+            k = rng.randint(140, 260)
+            for _ in range(k + 1):
+                e.new()
+            # ring 1..k, outside owner 0 adopting member 1
+            for j in range(1, k + 1):
+                e.edge(j, 1 + (j % k))
+            e.edge(0, 1)
+            e.clone(e.find_root(1))
+            for j in range(2, k + 1):
+                e.drop(e.find_root(j))
+            # two program handles to member 1 remain, plus the handle to the outside owner
+            e.drop(e.find_root(1))          # a fruitless trace from member 1: the group is held through owner 0
+            m = rng.randint(2, k)
+            e.clone(e.find_root(1)); e.drop(e.find_root(1))
+            # the owner is absorbed: member 1 comes to hold (and adopt) the program's only handle to it
+            e.link(e.find_root(0), e.find_root(1))
+            e.raw(f"counts {e.find_root(1)}")
+            e.drop(e.find_root(1))          # orphans ring + owner
+            drop_all(rng, e, 1.0)
+            yield (f"large-{seed}-xl{i}-absorb{k}-{m}", e.ops)
 
 
 def stream_noadopt(seed, n, max_ops=24):
